@@ -68,7 +68,7 @@ proof fn lemma_wa_row_done<W>(rows: Seq<BTreeMap<usize, W>>, acc0: Seq<(usize, u
 }
 
 impl<W> AdjacencyListWeighted<W> {
-    /*@fn impl=AdjacencyListWeighted trait=Arcs name=arcs loopify=Vec fuse eager wrap=enumerate subst="Iterator<Item=(usize,usize)>=>Iterator<Item=(usize,usize)>+use<'_,W>" props=C01,C16,C13
+    /*@fn impl=AdjacencyListWeighted trait=Arcs name=arcs loopify=Vec noisolation fuse eager wrap=enumerate subst="Iterator<Item=(usize,usize)>=>Iterator<Item=(usize,usize)>+use<'_,W>" props=C01,C16,C13
     ensures
         r.obeys_prophetic_iter_laws(),
         r.decrease() is Some,
@@ -92,11 +92,12 @@ impl<W> AdjacencyListWeighted<W> {
         it1.iter.obeys_prophetic_iter_laws(),
         it1.iter.decrease() is Some,
         it1.seq() == wa_enum_seq(self.arcs@.as_ref()),
-        wa_prefix(self.arcs@, vx_acc1@, it1.index@ as int),
+        wa_prefix(self.arcs@, vx_acc1@, it1.index() as int),
     @loop_start 1
         let ghost acc0 = vx_acc1@;
         proof {
-            let i = it1.index@ as int;
+            let i = it1.index() as int;
+            assert(self.arcs@.len() == self.arcs.len());   // hence i fits a usize
             assert(it1.seq()[i] == (i as usize, self.arcs@.as_ref()[i]));
             // an empty row adds nothing
             assert forall|items: Seq<(&usize, &W)>| #[trigger] wa_row_items(set@, items) && items.len() == 0 implies wa_prefix(self.arcs@, acc0, u + 1) by {
@@ -108,7 +109,7 @@ impl<W> AdjacencyListWeighted<W> {
     invariant
         it2.iter.obeys_prophetic_iter_laws(),
         it2.iter.decrease() is Some,
-        u == it1.index@,
+        u == it1.index(),
         u < self.arcs@.len(),
         *set == self.arcs@[u as int],
         wa_row_items(set@, it2.seq()),
